@@ -7,6 +7,7 @@ sometimes deliberately outside it (then the documented exception is a *rejected 
 from __future__ import annotations
 
 import io
+import os
 
 from . import gen
 from .histories import NSMAP, P, Rejected, all_slides, slide_shapes, xp
@@ -612,14 +613,38 @@ def op_paragraph_fmt(run):
     return "%s/%s" % (k, where)
 
 
+_FONT = []
+
+
+def _font_file():
+    if not _FONT:
+        cands = ["/usr/share/fonts/truetype/dejavu/DejaVuSans.ttf", "/usr/share/fonts/dejavu/DejaVuSans.ttf", "/usr/share/fonts/TTF/DejaVuSans.ttf"]
+        _FONT.append(next((c for c in cands if os.path.isfile(c)), None))
+    return _FONT[0]
+
+
 def op_textframe_fmt(run):
     from pptx.enum.text import MSO_ANCHOR, MSO_AUTO_SIZE
 
     r = run.rnd
     tf, where = a_text_frame(run)
-    k = r.choice(["margin", "word_wrap", "auto_size", "vertical_anchor"])
-    if where == "cell" and k in ("auto_size",):
+    k = r.choice(["margin", "word_wrap", "auto_size", "vertical_anchor", "fit_text"])
+    if where == "cell" and k in ("auto_size", "fit_text"):
         k = "margin"
+    if k == "fit_text":
+        # driven with an explicit font file (no lookup of installed fonts), on frames big enough for some size to fit
+        font = _font_file()
+        sp = tf._parent
+        if font is None or not tf.text or len(tf.text) > 400 or not all(isinstance(getattr(sp, a, None), int) and getattr(sp, a) >= 914400 for a in ("width", "height")):
+            run.acc.count("fit_text:not-applicable" if font else "fit_text:no-font-file-on-this-system")
+            k = "word_wrap"
+        else:
+            before = tf.text
+            tf.fit_text(font_family=r.choice(["DejaVu Sans", "Arial"]), max_size=r.choice([8, 18, 44]), bold=r.random() < 0.3, italic=r.random() < 0.3, font_file=font)
+            run.acc.count("fit_text:applied")
+            if tf.text != before:
+                run.acc.count("fit_text:CHANGED-THE-TEXT")
+            return "fit_text/%s" % where
     if k == "margin":
         setattr(tf, r.choice(["margin_left", "margin_right", "margin_top", "margin_bottom"]), r.choice([0, 91440, gen.emu(r, small=True), None]))
     elif k == "word_wrap":
